@@ -60,6 +60,8 @@ struct Script {
   int producers = 1, per_wave = 1, waves = 1; int pause[3] = {0, 0, 0};
   int timers = 0; int timer_us[3] = {0, 0, 0}; std::vector<std::pair<int, int>> timer_stops;
   int stop_delay = 0;
+  bool far = false;        // timers due in the far future (+10 s): they can only end through their stop requests, which arrive in a generated order with no expiry in between (timer-heap removal of the head, the new head, middle entries)
+  bool marathon = false;   // one producer, several hundred waves of one item each: the loop goes idle and is woken again hundreds of times (internal completion-queue accounting over a long life)
 };
 
 Script decode(vk::Choice& c) {
@@ -71,6 +73,16 @@ Script decode(vk::Choice& c) {
   int nst = s.timers ? (int)c.upto(3) : 0;
   for (int i = 0; i < nst; ++i) s.timer_stops.emplace_back((int)c.upto(3), (int)c.upto(30));
   s.stop_delay = (int)c.upto(6);
+  unsigned m = c.upto(40);
+  if (m == 0) { s.marathon = true; s.producers = 1; s.per_wave = 1; s.waves = 540 + (int)c.upto(60); s.timers = 0; s.timer_stops.clear(); for (int i = 0; i < 3; ++i) s.pause[i] = 0; }
+  else if (m < 12) {
+    s.far = true; s.timers = 2 + (int)c.upto(3); if (s.timers > 3) s.timers = 3;
+    s.timer_stops.clear();
+    // every timer is stopped exactly once, in a generated order
+    int order[3] = {0, 1, 2}; int perm = (int)c.upto(6); static const int PERM[6][3] = {{0,1,2},{0,2,1},{1,0,2},{1,2,0},{2,0,1},{2,1,0}};
+    for (int i = 0; i < 3; ++i) order[i] = PERM[perm][i];
+    for (int i = 0; i < 3; ++i) if (order[i] < s.timers) s.timer_stops.emplace_back(order[i], (int)c.upto(4));
+  }
   return s;
 }
 
@@ -106,13 +118,19 @@ void run_script(const Script& sc, bool check, bool& nontrivial) {
       std::vector<std::unique_ptr<Box<S>>> boxes; std::vector<OpRec*> mine; std::vector<decltype(t0)> due;
       for (int k = 0; k < sc.timers; ++k) {
         OpRec& o = W.add(3); mine.push_back(&o);
-        due.push_back(t0 + std::chrono::microseconds(sc.timer_us[k]));
+        due.push_back(sc.far ? t0 + std::chrono::seconds(10) + std::chrono::milliseconds(k) : t0 + std::chrono::microseconds(sc.timer_us[k]));
         boxes.emplace_back(new Box<S>()); boxes.back()->go(schedule_at(sched, due.back()), &o);
       }
       for (auto& st : sc.timer_stops) {
         for (int y = 0; y < st.second; ++y) detsched::yield_now();
         OpRec* o = mine[(size_t)st.first % mine.size()];
         if (o->t_stop < 0) { o->t_stop = dk::tick(); cx.tr("#%ld timers: request_stop on timer %d", o->t_stop, st.first % (int)mine.size()); o->src->request_stop(); }
+        if (sc.far) {   // the cancelled timer completes with done at once; its operation state is freed right away (a later touch by the context is a use-after-free)
+          size_t idx = (size_t)st.first % mine.size();
+          dk::wait_for([&] { return mine[idx]->signals > 0; });
+          if (check && mine[idx]->chan != dk::DONE) cx.fail("C07", "far_timer_not_done", "a timer due in 10 s whose stop token fired completed with %s", dk::chan_name(mine[idx]->chan));
+          boxes[idx].reset();
+        }
       }
       for (size_t k = 0; k < mine.size(); ++k) {
         dk::wait_for([&] { return mine[k]->signals > 0; });
@@ -153,9 +171,11 @@ const char* vk_nontrivial_rule() {
 void vk_run_case(vk::Choice& c) {
   auto& cx = vk::ctx();
   Script sc = decode(c);
-  cx.desc = vk::sfmt("io_uring_context: %d producer(s) x %d wave(s) x %d item(s), pauses %d/%d/%d, %d timer(s), %zu timer stop(s), stop after %d yields", sc.producers, sc.waves, sc.per_wave, sc.pause[0], sc.pause[1], sc.pause[2], sc.timers, sc.timer_stops.size(), sc.stop_delay);
+  cx.desc = vk::sfmt("%sio_uring_context: %d producer(s) x %d wave(s) x %d item(s), pauses %d/%d/%d, %d timer(s), %zu timer stop(s), stop after %d yields", sc.marathon ? "[marathon] " : sc.far ? "[timers due in 10 s, all cancelled] " : "", sc.producers, sc.waves, sc.per_wave, sc.pause[0], sc.pause[1], sc.pause[2], sc.timers, sc.timer_stops.size(), sc.stop_delay);
   bool nt = false;
-  detsched::Options o; o.max_steps = 60000;
+  detsched::Options o; o.max_steps = sc.marathon ? 1500000 : 60000;
+  if (sc.marathon) { o.dry_run = false; cx.label("marathon(hundreds of idle/wake-up rounds)"); }
+  if (sc.far) cx.label("far-future-timers-all-cancelled");
   auto res = detsched::run(c, o, [&] {
     bool dry = detsched::in_dry_run(); bool ig = false;
     run_script(sc, !dry, dry ? ig : nt);
